@@ -429,3 +429,214 @@ def c19_convert(run):
         run.obligation(name, "proved", backend="pyvc (exact rationals)", detail="k = 1, 2, 3, 5 rules per left-hand side: weight 1/k each, sum exactly one")
     else:
         run.obligation(name, "refuted", detail="rule weights of one left-hand side do not sum to one", replay=dict(replayed=False), signature="convert:uniform")
+
+
+def c19_char_cfg_wiring(run):
+    """C19/lark_interface.LarkStuff._char_cfg/ignore-wiring and /disjoint-nonterminals: the real body executed on a small
+    concrete token/rule list with recording stand-ins for convert / interegular_to_wfsa / to_bytes / to_cfg."""
+    fn = source.find(LARK, "LarkStuff._char_cfg")
+    run.function_under_contract("genlm.grammar.lark_interface.LarkStuff._char_cfg", source.sha(fn))
+    n_wire, n_disj = "C19/lark_interface.LarkStuff._char_cfg/ignore-wiring", "C19/lark_interface.LarkStuff._char_cfg/disjoint-nonterminals"
+    problems, disj_problems = [], []
+    for with_ignore in (False, True):
+        for to_bytes in (False, True):
+            adds = []
+            calls = []
+
+            class Foo:
+                def __init__(self, S):
+                    self.S = S
+                    self.V = set()
+                    self.N = set()
+
+                def __pyvc_getattr__(self, interp, nm, node):
+                    if nm == "add":
+                        def add(i2, a, k):
+                            adds.append(tuple(a))
+                            self.N.add(a[1])
+                        return I.Native("add", add)
+                    if nm in ("V", "N", "S"):
+                        return getattr(self, nm)
+                    raise I.OutOfSubset("foo." + nm)
+
+                def __pyvc_setattr__(self, interp, nm, v):
+                    setattr(self, nm, v)
+
+            class Fsa:
+                def __init__(self, tname, namefn, bytes_=False):
+                    self.tname, self.namefn, self.bytes_ = tname, namefn, bytes_
+
+                def __pyvc_getattr__(self, interp, nm, node):
+                    if nm == "to_bytes":
+                        return I.Native("to_bytes", lambda i2, a, k: Fsa(self.tname, self.namefn, True))
+                    if nm == "to_cfg":
+                        def to_cfg(i2, a, k):
+                            # contract of to_cfg: nonterminals = S + the automaton's state names; V = its alphabet
+                            st = [i2.call(self.namefn, [q], {}) for q in (0, 1)]
+                            if self.bytes_:
+                                st.append(f"_bytes{len(calls)}")     # unique per call (contract of to_bytes after the fix)
+                            calls.append((self.tname, k.get("S"), k.get("recursion"), self.bytes_, tuple(st)))
+                            sym = ord("a") if self.bytes_ else "a"
+                            rules = [Bag(w=Fraction(1, 2), head=k["S"], body=(st[0],)), Bag(w=Fraction(1, 2), head=st[0], body=(sym, st[1])),
+                                     Bag(w=1, head=st[1], body=())]
+                            return Bag(V={sym}, __iter__=None, rules=rules, _it=rules)
+                        return I.Native("to_cfg", to_cfg)
+                    raise I.OutOfSubset("fsa." + nm)
+
+            from fractions import Fraction
+            ids = {}
+            arsenal = Bag(Integerizer=I.Native("Integerizer", lambda i2, a, k: I.Native("intern", lambda i3, a3, k3: ids.setdefault(a3[0], len(ids)))))
+            terminals = [Bag(name="A", pattern=Bag(to_regexp=I.Native("to_regexp", lambda *x: "a"))),
+                         Bag(name="WS", pattern=Bag(to_regexp=I.Native("to_regexp", lambda *x: " ")))]
+            rules0 = [Bag(w=1, head="start", body=("A", "A"))]
+
+            class CfgTok:
+                S = "start"
+                V = {"A", "WS"}
+
+                def __pyvc_getattr__(self, interp, nm, node):
+                    if nm in ("S", "V"):
+                        return getattr(self, nm)
+                    raise I.OutOfSubset("cfg." + nm)
+
+                def __pyvc_iter__(self, interp):
+                    return list(rules0)
+
+            class GIter(Bag):
+                def __pyvc_iter__(self, interp):
+                    return list(self.f["rules"])
+
+            def regex2fsa(i2, a, k):
+                return Fsa({"a": "A", " ": "WS"}[a[0]], k["name"])
+
+            foo_holder = {}
+
+            def CFGc(i2, a, k):
+                foo_holder["foo"] = Foo(k.get("S"))
+                return foo_holder["foo"]
+
+            selfobj = Bag(convert=I.Native("convert", lambda i2, a, k: CfgTok()), ignore_terms=(["WS"] if with_ignore else []), terminals=terminals)
+            g = {"arsenal": arsenal, "CFG": I.Native("CFG", CFGc), "Float": "Float", "interegular_to_wfsa": I.Native("i2w", regex2fsa),
+                 "NotImplementedError": "NotImplementedError"}
+            it = I.Interp(I.Path([]))
+            # Bag results of to_cfg must be iterable over their rules
+            orig_iterate = it.iterate
+
+            def iterate(v, node=None):
+                if isinstance(v, Bag) and "rules" in v.f:
+                    return list(v.f["rules"])
+                return orig_iterate(v, node)
+
+            it.iterate = iterate
+            fobj = I.FuncObj(fn, I.Env(None, g), "LarkStuff._char_cfg")
+            try:
+                ret = it.call_func(fobj, [selfobj], {"to_bytes": to_bytes})
+            except I.PyRaise as e:
+                problems.append(f"ignore={with_ignore} bytes={to_bytes}: raises {e.kind}: {e.msg}")
+                continue
+            except I.OutOfSubset as e:
+                run.obligation(n_wire, "out-of-subset", role=AUX, detail=str(e))
+                return
+            N = lambda x: f"N{ids[x]}"      # noqa: E731
+            want_top = [(1, N("start"), N("A"), N("A"))]
+            have = [tuple(a) for a in adds]
+            if not all(any(h == w for h in have) for w in want_top):
+                problems.append(f"ignore={with_ignore}: renamed rule grammar missing")
+            if with_ignore:
+                ign = N("$IGNORE")
+                need = [(1, ign), (1, ign, N("WS")), (1, N("A"), ign, N(("tmp", "A")))]
+                for w in need:
+                    if w not in have:
+                        problems.append(f"ignore wiring: missing rule {w}")
+                starts = {c[0]: c[1] for c in calls}
+                if starts.get("A") != N(("tmp", "A")) or starts.get("WS") != N("WS"):
+                    problems.append(f"ignore wiring: to_cfg start symbols {starts}")
+            else:
+                starts = {c[0]: c[1] for c in calls}
+                if starts != {"A": N("A"), "WS": N("WS")}:
+                    problems.append(f"to_cfg start symbols {starts}")
+            # disjointness: state names of different terminals never coincide, nor with rule nonterminals, nor with terminals
+            pools = [set(c[4]) for c in calls]
+            if len(pools) == 2 and pools[0] & pools[1]:
+                disj_problems.append(f"terminals share automaton nonterminals {pools[0] & pools[1]} (bytes={to_bytes})")
+            foo = foo_holder["foo"]
+            if foo.N & foo.V:
+                disj_problems.append(f"nonterminal/terminal name clash {foo.N & foo.V}")
+    if problems:
+        run.obligation(n_wire, "refuted", role=AUX, backend="pyvc", detail=problems[0], replay=dict(replayed=False, problems=problems), signature="_char_cfg:wiring")
+    else:
+        run.obligation(n_wire, "proved", role=AUX, backend="pyvc", detail="rule grammar renamed through f; $IGNORE -> eps | ignored terminals; tok -> $IGNORE tmp with tmp the start of the terminal's own grammar; 4 configurations")
+    if disj_problems:
+        run.obligation(n_disj, "refuted", backend="pyvc", detail=disj_problems[0], replay=dict(replayed=False, problems=disj_problems), signature="_char_cfg:disjoint")
+    else:
+        run.obligation(n_disj, "proved", backend="pyvc", detail="automaton states are named f((terminal, state)): disjoint across terminals and from rule nonterminals (Integerizer injective, A7); byte chain states unique per call; N and V disjoint")
+
+
+def c17_to_bytes_fresh(run):
+    """C17/wfsa.base.WFSA.to_bytes/chain: a k-byte label becomes a chain of k arcs through k-1 new states, weight on the last arc;
+    /fresh-chain-states: the new states of two calls are disjoint from each other and from the input states."""
+    import itertools
+    fn = source.find(BASE, "WFSA.to_bytes")
+    run.function_under_contract("genlm.grammar.wfsa.base.WFSA.to_bytes", source.sha(fn))
+    n_chain, n_fresh = "C17/wfsa.base.WFSA.to_bytes/chain", "C17/wfsa.base.WFSA.to_bytes/fresh-chain-states"
+    # module-level state the function may use (read from the current source)
+    mod = source.module_ast(BASE)
+    genv = {"EPSILON": "", "ValueError": "ValueError", "next": I.Native("next", lambda i2, a, k: next(a[0]))}
+    for st in mod.body:
+        if isinstance(st, ast.Assign) and isinstance(st.value, ast.Call) and ast.unparse(st.value) == "itertools.count()":
+            genv[ast.unparse(st.targets[0])] = itertools.count()
+    w = W("w")
+    one = W("R_one")
+    results = []
+    try:
+        for call_no in range(2):
+            it = I.Interp(I.Path([]), uf=G.UF)
+            m = Machine()
+            selfobj = Bag(R=Bag(one=one), spawn=I.Native("spawn", lambda i2, a, k: m),
+                          arcs=I.Native("arcs", lambda i2, a, k: [("p", "é", "q", w), ("p", "a", "q", w), ("q", "", "p", w), ("p", "€", "q", w)]))
+            fobj = I.FuncObj(fn, I.Env(None, dict(genv)), "WFSA.to_bytes")
+            ret = it.call_func(fobj, [selfobj], {})
+            if ret is not m:
+                raise I.OutOfSubset("to_bytes does not return the spawned machine")
+            results.append(m)
+    except (I.OutOfSubset, I.PyRaise) as e:
+        run.obligation(n_chain, "out-of-subset", detail=str(e))
+        return
+    ok_chain = True
+    news = []
+    for m in results:
+        arcs = [(_c(a[0]), a[1], _c(a[2]), a[3]) for a in m.arcs]
+        new_states = {s for a in arcs for s in (a[0], a[2])} - {"p", "q"}
+        news.append(new_states)
+        be = list("é".encode()), list("€".encode())
+        for bs in be:
+            # follow the chain p -bs[0]-> s1 -...-> q
+            cur, wts = "p", []
+            for k, b in enumerate(bs):
+                nxt = [a for a in arcs if a[0] == cur and a[1] == b and (a[2] == "q") == (k == len(bs) - 1) and (k == 0 or cur in new_states)]
+                nxt = [a for a in nxt if k < len(bs) - 1 and a[2] in new_states or k == len(bs) - 1]
+                if len(nxt) != 1:
+                    ok_chain = False
+                    break
+                wts.append(nxt[0][3])
+                cur = nxt[0][2]
+            else:
+                if not (all(x.e.eq(one.e) for x in wts[:-1]) and wts[-1].e.eq(w.e)):
+                    ok_chain = False
+        if not any(a == ("p", ord("a"), "q", w) or (a[0], a[1], a[2]) == ("p", ord("a"), "q") for a in arcs) or not any((a[0], a[1], a[2]) == ("q", "", "p") for a in arcs):
+            ok_chain = False
+        if len(new_states) != 3:       # é: 1 intermediate state, €: 2
+            ok_chain = False
+    if ok_chain:
+        run.obligation(n_chain, "proved", role=AUX, backend="pyvc", detail="2- and 3-byte labels become chains through 1 resp. 2 new states with weight one on all but the last arc; single-byte and epsilon arcs unchanged")
+    else:
+        run.obligation(n_chain, "refuted", role=AUX, backend="pyvc", detail="multi-byte arc is not expanded into a chain with the weight on the last arc", replay=dict(replayed=False), signature="to_bytes:chain")
+    if news[0] & news[1]:
+        run.obligation(n_fresh, "refuted", backend="pyvc", detail=f"two to_bytes() calls reuse the chain-state names {sorted(news[0] & news[1])}: automata merged into one grammar share states",
+                       replay=dict(replayed=False, hint="LarkStuff('start: A B\\nA: \"é\"\\nB: \"ü\"').byte_cfg() accepts 'üé'"), signature="to_bytes:fresh-states")
+    else:
+        run.obligation(n_fresh, "proved", backend="pyvc", detail="chain states of two calls are pairwise distinct (module-level counter) and differ from the input's states")
+
+
+def _c(x):
+    return x
